@@ -2050,4 +2050,149 @@ theorem todoBlock_Ledger (e : Env) (s s' : St) (lh : Int) (b : Block) (C : List 
       exact ⟨LedSum.congr this rfl rfl, trivial⟩
     · cases hs
 
+-- ---------------------------------------------------------------- walk
+
+/-- the transactions of a list of blocks, in order -/
+def blockTxs (e : Env) (l : List Nat) : List Nat := l.flatMap (fun bi => (e.block bi).txs)
+
+theorem blockTxs_cons (e : Env) (bi : Nat) (l : List Nat) : blockTxs e (bi :: l) = (e.block bi).txs ++ blockTxs e l := by
+  unfold blockTxs; simp
+
+theorem blockTxs_snoc (e : Env) (bi : Nat) (l : List Nat) : blockTxs e (l ++ [bi]) = blockTxs e l ++ (e.block bi).txs := by
+  unfold blockTxs; simp
+
+theorem walk_shape (e : Env) (s : St) (lh : Int) (dest : Nat) (prune : Bool) :
+    walk e s lh dest prune =
+      (let s0 : St := { (s.pool.reverse.foldl (fun st i => undoTx e st (e.tx i)) s) with pool := [] }
+       let ut := undoTodo e s.pointer dest
+       let r1 := walk.undoAll e prune ut.1 s0
+       if !r1.2 then (r1.1, false) else
+       let r2 := walk.todoAll e lh ut.2 r1.1
+       if !r2.2 then (r2.1, false) else
+       (s.pool.foldl (fun st i => (doTx e st lh i).1) r2.1, true)) := by rfl
+
+/-- step 2 of `walk`: the blocks to undo are the blocks that end the confirmed log (newest first) -/
+theorem undoAll_Ledger (e : Env) (prune : Bool) (undo : List Nat) (st : St) (C0 : List Nat)
+    (h : Ledger e st (C0 ++ blockTxs e undo.reverse)) (hp : st.pool = []) :
+    ∃ C', Ledger e (walk.undoAll e prune undo st).1 C' ∧ (walk.undoAll e prune undo st).1.pool = [] ∧
+      ((walk.undoAll e prune undo st).2 = true → C' = C0) := by
+  induction undo generalizing st with
+  | nil =>
+    unfold walk.undoAll
+    exact ⟨C0, by simpa [blockTxs] using h, hp, fun _ => rfl⟩
+  | cons bi rest ih =>
+    unfold walk.undoAll
+    simp only
+    split
+    · exact ⟨_, h, hp, by simp⟩
+    · rw [List.reverse_cons, blockTxs_snoc, ← List.append_assoc] at h
+      obtain ⟨h1, h2⟩ := undoBlock_Ledger e st (e.block bi) prune _ h hp
+      exact ih _ h1 h2
+
+/-- step 3 of `walk`: the blocks to apply carry transactions with pairwise distinct ids not yet confirmed, each block is
+in citation order, a coinbase has no inputs and no fee -/
+theorem todoAll_Ledger (e : Env) (lh : Int) (todo : List Nat) (st : St) (C : List Nat)
+    (h : Ledger e st C) (hp : st.pool = [])
+    (hnd : (C ++ blockTxs e todo).Nodup)
+    (hblk : ∀ bi ∈ todo, (∀ i ∈ (e.block bi).txs, (e.tx i).id = i) ∧
+      (∀ i ∈ (e.block bi).txs, (e.tx i).coinbase = true → (e.tx i).ins = [] ∧ feeOf (e.tx i).outs = 0) ∧
+      (e.block bi).txs.Pairwise (fun a b => ∀ r ∈ (e.tx a).ins, r.tx ≠ b)) :
+    ∃ C', Ledger e (walk.todoAll e lh todo st).1 C' ∧ (walk.todoAll e lh todo st).1.pool = [] ∧
+      ((walk.todoAll e lh todo st).2 = true → C' = C ++ blockTxs e todo) := by
+  induction todo generalizing st C with
+  | nil =>
+    unfold walk.todoAll
+    exact ⟨C, h, hp, fun _ => by simp [blockTxs]⟩
+  | cons bi rest ih =>
+    unfold walk.todoAll
+    rw [blockTxs_cons] at hnd ⊢
+    obtain ⟨b1, b2, b3⟩ := hblk bi List.mem_cons_self
+    cases htb : todoBlock e st lh (e.block bi) with
+    | none => exact ⟨C, h, hp, by simp⟩
+    | some st' =>
+      simp only
+      obtain ⟨hndC, hndR, hdis⟩ := List.nodup_append.mp hnd
+      obtain ⟨t1, t2⟩ := todoBlock_Ledger e st st' lh (e.block bi) C htb h hp
+        (List.nodup_append.mp hndR).1 b1
+        (fun i hi hc => hdis i hc i (List.mem_append_left _ hi) rfl) b2 b3
+      obtain ⟨C', c1, c2, c3⟩ := ih st' (C ++ (e.block bi).txs) t1 t2 (by rw [List.append_assoc]; exact hnd)
+        (fun bj hbj => hblk bj (List.mem_cons_of_mem _ hbj))
+      exact ⟨C', c1, c2, fun hok => by rw [c3 hok, List.append_assoc]⟩
+
+/-- step 4 of `walk`: the rolled-back pool is re-submitted. A transaction that is confirmed on the new chain is not
+re-admitted, because its inputs are spent — provided it has an input at all (`hyp`, third part) -/
+theorem readmit_Ledger (e : Env) (lh : Int) (pool : List Nat) (st : St) (C : List Nat) (h : Ledger e st C)
+    (hyp : ∀ i ∈ pool, (e.tx i).id = i ∧ (e.tx i).coinbase = false ∧ (i ∈ C → (e.tx i).ins ≠ [])) :
+    Ledger e (pool.foldl (fun st i => (doTx e st lh i).1) st) C := by
+  induction pool generalizing st with
+  | nil => exact h
+  | cons i rest ih =>
+    simp only [List.foldl_cons]
+    apply ih _ _ (fun j hj => hyp j (List.mem_cons_of_mem _ hj))
+    apply doTx_Ledger e st lh i C h
+    intro hok
+    obtain ⟨y1, y2, y3⟩ := hyp i List.mem_cons_self
+    refine ⟨y1, ?_, y2⟩
+    intro hiC
+    obtain ⟨r, hr⟩ := List.exists_mem_of_ne_nil _ (y3 hiC)
+    obtain ⟨_, hadm, _⟩ := XV.C03.doTx_ok e st lh i hok
+    obtain ⟨u, hu, _⟩ := (XV.C03.admit_sound st lh (e.tx i) hadm).1 r hr
+    rw [h.led.insSpent i (List.mem_append_left _ hiC) r hr] at hu
+    cases hu
+
+/-- **`walk` keeps the ledger invariant**, whatever its outcome (refused undo, failing block, success): the pool is rolled
+back, the blocks that end the confirmed log are undone (`hundo` ties the ghost log to the blocks `walk` undoes), the
+blocks of the new branch are applied (`hnd`, `hblk`: distinct ids not confirmed below the fork, citation order, award
+shape), the pool is re-submitted (`hre`: a pending transaction that the new branch confirms has an input). -/
+theorem walk_Ledger (e : Env) (s : St) (lh : Int) (dest : Nat) (prune : Bool) (C C0 : List Nat) (h : Ledger e s C)
+    (hundo : C = C0 ++ blockTxs e (undoTodo e s.pointer dest).1.reverse)
+    (hnd : (C0 ++ blockTxs e (undoTodo e s.pointer dest).2).Nodup)
+    (hblk : ∀ bi ∈ (undoTodo e s.pointer dest).2, (∀ i ∈ (e.block bi).txs, (e.tx i).id = i) ∧
+      (∀ i ∈ (e.block bi).txs, (e.tx i).coinbase = true → (e.tx i).ins = [] ∧ feeOf (e.tx i).outs = 0) ∧
+      (e.block bi).txs.Pairwise (fun a b => ∀ r ∈ (e.tx a).ins, r.tx ≠ b))
+    (hre : ∀ i ∈ s.pool, i ∈ C0 ++ blockTxs e (undoTodo e s.pointer dest).2 → (e.tx i).ins ≠ []) :
+    ∃ C', Ledger e (walk e s lh dest prune).1 C' ∧
+      ((walk e s lh dest prune).2 = true → C' = C0 ++ blockTxs e (undoTodo e s.pointer dest).2) := by
+  rw [walk_shape]
+  simp only
+  -- step 1: roll the pool back
+  have hl := h.led
+  obtain ⟨_, hndP, _⟩ := List.nodup_append.mp hl.nodupA
+  obtain ⟨_, hoP, _⟩ := List.pairwise_append.mp hl.order
+  have hndr : s.pool.reverse.Nodup := by
+    unfold List.Nodup
+    rw [List.pairwise_reverse]
+    exact List.Pairwise.imp (fun h => fun e2 => h e2.symm) hndP
+  have hfold := undoFold_LedSum e s.pool.reverse s C s.pool h hndr (fun t ht => List.mem_reverse.mp ht)
+    (by rw [List.pairwise_reverse]; exact hoP) (fun t _ j hj _ => List.mem_reverse.mpr hj)
+  have hnil : s.pool.filter (fun x => !s.pool.reverse.contains x) = [] := by
+    apply List.filter_eq_nil_iff.mpr; intro a ha; simp [ha]
+  rw [hnil] at hfold
+  have h0 : Ledger e { (s.pool.reverse.foldl (fun st i => undoTx e st (e.tx i)) s) with pool := [] }
+      (C0 ++ blockTxs e (undoTodo e s.pointer dest).1.reverse) := by
+    rw [← hundo]; exact LedSum.congr hfold rfl rfl
+  -- step 2: undo blocks
+  obtain ⟨C1, u1, u2, u3⟩ := undoAll_Ledger e prune (undoTodo e s.pointer dest).1 _ C0 h0 rfl
+  cases hr1 : (walk.undoAll e prune (undoTodo e s.pointer dest).1
+      { (s.pool.reverse.foldl (fun st i => undoTx e st (e.tx i)) s) with pool := [] }).2 with
+  | false => exact ⟨C1, by simpa [hr1] using u1, by simp [hr1]⟩
+  | true =>
+    simp only [hr1, Bool.not_true, Bool.false_eq_true, ↓reduceIte]
+    have hC1 := u3 hr1
+    rw [hC1] at u1
+    -- step 3: apply blocks
+    obtain ⟨C2, t1, t2, t3⟩ := todoAll_Ledger e lh (undoTodo e s.pointer dest).2 _ C0 u1 u2 hnd hblk
+    cases hr2 : (walk.todoAll e lh (undoTodo e s.pointer dest).2
+        (walk.undoAll e prune (undoTodo e s.pointer dest).1
+          { (s.pool.reverse.foldl (fun st i => undoTx e st (e.tx i)) s) with pool := [] }).1).2 with
+    | false => exact ⟨C2, by simpa [hr2] using t1, by simp [hr2]⟩
+    | true =>
+      simp only [hr2, Bool.not_true, Bool.false_eq_true, ↓reduceIte]
+      have hC2 := t3 hr2
+      rw [hC2] at t1
+      -- step 4: re-submit the pool
+      refine ⟨_, readmit_Ledger e lh s.pool _ _ t1 ?_, fun _ => rfl⟩
+      intro i hi
+      exact ⟨hl.idEq i (List.mem_append_right _ hi), h.poolNonCoinbase i hi, hre i hi⟩
+
 end XV.C02
